@@ -106,6 +106,37 @@ func sha8(b []byte) []byte {
 	return []byte{byte(h), byte(h >> 8), byte(h >> 16), byte(h >> 24), byte(h >> 32), byte(h >> 40)}
 }
 
+// barrier is a reusable rendezvous for n goroutines.
+type barrier struct {
+	mu    sync.Mutex
+	cond  *sync.Cond
+	n     int
+	count int
+	gen   int
+}
+
+func newBarrier(n int) *barrier {
+	b := &barrier{n: n}
+	b.cond = sync.NewCond(&b.mu)
+	return b
+}
+
+func (b *barrier) wait() {
+	b.mu.Lock()
+	gen := b.gen
+	b.count++
+	if b.count == b.n {
+		b.count = 0
+		b.gen++
+		b.cond.Broadcast()
+	} else {
+		for gen == b.gen {
+			b.cond.Wait()
+		}
+	}
+	b.mu.Unlock()
+}
+
 type concEvent struct {
 	api        int
 	call, ret  int64
@@ -119,7 +150,7 @@ func c11NumInst(tier string) int {
 	if tier == "thorough" {
 		return 120
 	}
-	return 12
+	return 15
 }
 
 func c11NumCases(tier string) int { return c11NumInst(tier) * len(concGs) }
@@ -261,6 +292,18 @@ func runC11(ctx *Ctx, idx int) {
 	var wg sync.WaitGroup
 	start := make(chan struct{})
 	rounds := 2
+	// one representative operation per API, Marshal/String/Stat first
+	var burst []int
+	for _, api := range []string{"Marshal", "String", "Stat", "proto.Size", "NewIter", "ScanFrom", "ScanFromTo", "Search", "RangeGet", "Get", "GetID", "GetI32"} {
+		for oi, op := range ops {
+			if op.api == api {
+				burst = append(burst, oi)
+				break
+			}
+		}
+	}
+	bar := newBarrier(G)
+	ctx.Count("first_use_bursts", int64(len(burst)))
 	for g := 0; g < G; g++ {
 		wg.Add(1)
 		gr := NewRNG(r.U64())
@@ -268,6 +311,27 @@ func runC11(ctx *Ctx, idx int) {
 			defer wg.Done()
 			res := &results[g]
 			<-start
+			// burst: the very first use of every API on the never-read instance
+			// happens in all goroutines at once (a read API that writes on
+			// first use - lazy conversion, dropped fields, memoisation - races
+			// here or nowhere)
+			for _, oi := range burst {
+				bar.wait()
+				op := ops[oi]
+				inf := atomic.AddInt32(&inflight, 1)
+				call := atomic.AddInt64(&clock, 1)
+				var got string
+				pv, _ := try(func() { got = op.run() })
+				ret := atomic.AddInt64(&clock, 1)
+				atomic.AddInt32(&inflight, -1)
+				if pv != nil {
+					got = pstr(pv)
+				}
+				res.events = append(res.events, concEvent{api: apiIndex(op.api), call: call, ret: ret, inflightAt: inf})
+				if got != canon[oi] && len(res.bad) < 3 {
+					res.bad = append(res.bad, fmt.Sprintf("%s (first-use burst): concurrent %q solo %q", op.api, truncate(got, 200), truncate(canon[oi], 200)))
+				}
+			}
 			for round := 0; round < rounds; round++ {
 				perm := gr.Perm(len(ops))
 				for _, oi := range perm {
@@ -431,7 +495,7 @@ func runC11(ctx *Ctx, idx int) {
 func init() {
 	register(&CheckDef{
 		ID: "C11", Level: "exploration", Race: true,
-		Rule:          "case = (one shared instance: fresh complete / fresh filter / loaded from current bytes / loaded from 0.5.10 allpref bytes / loaded from three-section bytes; G in {2,4,8,16,32} goroutines; GOMAXPROCS in {1,2,16}); every goroutine runs two seeded permutations of a fixed list of ~200-400 read operations (Get, GetID, RangeGet, Search, GetI32, ScanFrom, ScanFromTo, NewIter cursors, Stat, String, Marshal, proto.Size) with randomized yielding, released from a barrier; oracle: zero reports of the Go race detector with a frame in slim/low/protobuf, every concurrent result equals the result of the same operation run alone on an identically built second instance (the shared instance is never read before the goroutines start, so first-use initialisation happens under contention), k iterators of one trie stepped round-robin and across goroutines each yield exactly their own sequence; the harness itself is built with -race; non-trivial = every case; distinct by keys and (G, GOMAXPROCS)",
+		Rule:          "case = (one shared instance: fresh complete / fresh filter / loaded from current bytes / loaded from 0.5.10 allpref bytes / loaded from three-section bytes; G in {2,4,8,16,32} goroutines; GOMAXPROCS in {1,2,16}); every goroutine runs two seeded permutations of a fixed list of ~200-400 read operations (Get, GetID, RangeGet, Search, GetI32, ScanFrom, ScanFromTo, NewIter cursors, Stat, String, Marshal, proto.Size) with randomized yielding, released from a barrier; before that, the first use of every API on the never-read instance is made by all goroutines at once (one barrier per API); oracle: zero reports of the Go race detector with a frame in slim/low/protobuf, every concurrent result equals the result of the same operation run alone on an identically built second instance (the shared instance is never read before the goroutines start, so first-use initialisation happens under contention), k iterators of one trie stepped round-robin and across goroutines each yield exactly their own sequence; the harness itself is built with -race; non-trivial = every case; distinct by keys and (G, GOMAXPROCS)",
 		NumCases:      c11NumCases,
 		Run:           runC11,
 		MinNontrivial: func(tier string) int { return c11NumCases(tier) * 3 / 4 },
